@@ -145,6 +145,75 @@ def judge(R, it, res, cert, lean_ans):
         R.corr_break("stableB accepts the output", ENTRY, inp, pairs, lean_ans, cfg)
 
 
+BRUTE_N = 7     # the model's brute-force optimum optStable (C03_optStable_spec: it IS the maximum over all stable matchings) up to this size
+
+
+def sm_tokens(it):
+    n = len(it["P1"])
+    toks = [str(n)]
+    for M in (it["P1"], it["P2"], it["V1"], it["V2"]):
+        toks += [str(int(v)) for row in M for v in row]
+    return toks
+
+
+@safe_judge
+def judge_brute(R, it, res, opt, val, entry=None):
+    """the implementation's answer against the kernel-verified brute force inside the model (no Python arithmetic, no z3)"""
+    inp = {"P1": it["P1"], "P2": it["P2"], "V1": it["V1"], "V2": it["V2"]}
+    cfg = {"zero_indexed": it.get("zero", True), "ordinal_profiles_omitted": it.get("omit", False), "float_ranks": bool(it.get("float_ranks"))}
+    entry = entry or ENTRY
+    R.count("brute_force_reference(optStable)")
+    if not opt.startswith("ok "):
+        R.corr_break("the model's brute-force optimum is defined on this input", entry, inp, res.get("pairs"), opt, cfg)
+        return
+    if val is None or not val.startswith("ok "):
+        R.violation("property_violation", "returns a perfect matching", entry, inp, impl_output=res.get("pairs"), model_output=val,
+                    oracle="the model cannot read the output as a permutation", config=cfg)
+        return
+    best, cnt = int(opt.split()[1]), int(opt.split()[2])
+    v, stable = int(val.split()[1]), val.split()[2] == "1"
+    if not stable:
+        R.violation("property_violation", "stable with respect to the ordinal profiles", entry, inp, impl_output=res.get("pairs"),
+                    model_output=val, oracle="the model's stableB rejects the output", config=cfg)
+        return
+    if v != best:
+        R.violation("property_violation", "total value is maximal among all stable matchings (model's brute-force optimum)", entry, inp,
+                    impl_output=res.get("pairs"), model_output={"optStable": best, "stable_matchings": cnt, "value_of_output": v},
+                    oracle="kernel-verified brute force over all permutations (C03_optStable_spec)", config=cfg)
+        return
+    if cnt >= 2:
+        R.count("brute_force_reference: >=2 stable matchings")
+
+
+def brute_compare(R, items, results, entry=None):
+    lines, where = [], []
+    for i, (it, r) in enumerate(zip(items, results)):
+        n = len(it["P1"])
+        if n > BRUTE_N or "pairs" not in r:
+            continue
+        fixer = 0 if it.get("zero", True) else 1
+        mu = [None] * n
+        try:
+            for a, b in r["pairs"]:
+                mu[a - fixer] = b - fixer
+        except Exception:  # noqa
+            mu = None
+        toks = sm_tokens(it)
+        lines.append(" ".join(["smopt"] + toks))
+        has_val = mu is not None and all(isinstance(x, int) and x >= 0 for x in mu)
+        if has_val:
+            lines.append(" ".join(["smval"] + toks + [str(x) for x in mu]))
+        where.append((i, has_val))
+    ans = lean_query(lines)
+    k = 0
+    for i, has_val in where:
+        opt = ans[k]; k += 1
+        val = None
+        if has_val:
+            val = ans[k]; k += 1
+        judge_brute(R, items[i], results[i], opt, val, entry)
+
+
 def find_better(P1, P2, V1, V2, w, it):
     n = len(P1)
     if n <= 8:
@@ -196,6 +265,7 @@ def run_items(R, items, deadline, certify):
         it["stages"] = bool(R.thorough) or it.get("tag") in ("corpus", "replay") or len(it["P1"]) <= 8
     results = pmap("c03", "impl_one", items, deadline=deadline, workers=12)
     mirror_compare(R, items, results)
+    brute_compare(R, items, results)
     need, idx = [], []
     for i, (it, r) in enumerate(zip(items, results)):
         if "pairs" in r and certify(i, it):
